@@ -820,6 +820,7 @@ func ruleD3(r *core.Run) {
 		}
 	}
 	r.Discharge("D3-mem", "D3-mem|scope", "", fmt.Sprintf("no module function opens a store through a mem/transient key field (%d uses)", memUse))
+	ruleStoreKeyKinds(r)
 	// package-level variables of mutable type that are written anywhere outside init (any module function)
 	vars := map[string]bool{}
 	for _, f := range r.P.Funcs {
@@ -839,4 +840,96 @@ func ruleD3(r *core.Run) {
 	}
 	sort.Strings(vs)
 	r.Notes = append(r.Notes, "package-level variables written outside init anywhere in the module: "+strings.Join(vs, ", "))
+}
+
+// ruleStoreKeyKinds (D3-mem, by type rather than by field name): every keeper
+// field through which module code opens a store is bound, at the keeper's
+// constructor call in the app wiring, to a persistent *KVStoreKey; a
+// *MemoryStoreKey or *TransientStoreKey there makes the "store" process-resident
+// (empty after a restart, absent from the app hash).
+func ruleStoreKeyKinds(r *core.Run) {
+	used := map[string]bool{} // module.field used to open stores
+	for _, f := range r.P.Funcs {
+		for _, e := range r.Eff.Own[f] {
+			if strings.HasPrefix(e.Kind, "store.") && e.Module != "?" && !strings.HasPrefix(e.KeyField, "param:") {
+				used[e.Module+"."+e.KeyField] = true
+			}
+		}
+	}
+	const kvKey = "*github.com/cosmos/cosmos-sdk/store/types.KVStoreKey"
+	nBound := 0
+	var ctors []*ssa.Function
+	for _, f := range r.P.Funcs {
+		if f.Name() == "NewKeeper" && f.Signature.Recv() == nil && f.Pkg != nil && strings.HasSuffix(f.Pkg.Pkg.Path(), "/keeper") {
+			ctors = append(ctors, f)
+		}
+	}
+	sort.Slice(ctors, func(i, j int) bool { return r.P.Name(ctors[i]) < r.P.Name(ctors[j]) })
+	for _, ctor := range ctors {
+		mod := strings.Split(r.P.Name(ctor), "/")[0]
+		// param index -> field name
+		p2f := map[int]string{}
+		for _, b := range ctor.Blocks {
+			for _, ins := range b.Instrs {
+				st, ok := ins.(*ssa.Store)
+				if !ok {
+					continue
+				}
+				fa, ok := st.Addr.(*ssa.FieldAddr)
+				if !ok {
+					continue
+				}
+				pr, ok := st.Val.(*ssa.Parameter)
+				if !ok {
+					continue
+				}
+				T := fa.X.Type()
+				if pt, ok := T.Underlying().(*types.Pointer); ok {
+					T = pt.Elem()
+				}
+				stt, ok := T.Underlying().(*types.Struct)
+				if !ok || fa.Field >= stt.NumFields() {
+					continue
+				}
+				for i, q := range ctor.Params {
+					if q == pr {
+						p2f[i] = stt.Field(fa.Field).Name()
+					}
+				}
+			}
+		}
+		for _, caller := range r.P.CG.In[ctor] {
+			for _, site := range r.P.CG.Sites[caller] {
+				hit := false
+				for _, c := range site.Callees {
+					if c == ctor {
+						hit = true
+					}
+				}
+				if !hit {
+					continue
+				}
+				args := site.Instr.Common().Args
+				for i, a := range args {
+					field, ok := p2f[i]
+					if !ok || !used[mod+"."+field] {
+						continue
+					}
+					mi, ok := a.(*ssa.MakeInterface)
+					if !ok {
+						r.Notes = append(r.Notes, fmt.Sprintf("store key kind of %s.%s not visible at %s (argument is already an interface value)", mod, field, r.P.Pos(site.Instr.Pos())))
+						continue
+					}
+					nBound++
+					key := core.Key("D3-mem", "keykind", mod+"."+field, r.P.Name(caller))
+					if ts := mi.X.Type().String(); ts != kvKey {
+						r.Violate("D3-mem", key, r.P.Pos(site.Instr.Pos()), fmt.Sprintf("keeper field %s.%s, through which module code opens its store, is bound to a %s at the constructor call: that store is not persisted (empty after a restart) and does not enter the app hash, so a restarted node diverges from an uninterrupted one", mod, field, ts))
+					} else {
+						r.Discharge("D3-mem", key, r.P.Pos(site.Instr.Pos()), fmt.Sprintf("%s.%s bound to a persistent *KVStoreKey", mod, field))
+					}
+				}
+			}
+		}
+	}
+	r.Floor("store_key_bindings", nBound, 6)
 }
